@@ -12,71 +12,71 @@ TRUST = ("Trusted: go/types + go/ssa (x/tools v0.50.0) as a faithful representat
 # id -> (level, technique, text, note, design_ref)
 CLAIMS = {
  "C14": ("proof", "must-hold lockset dataflow on go/ssa + single-critical-section rule + CFG guard dominance",
-         "Per-operation atomicity of every non-iterating operation of pkg/sync.Map and pkg/cache.Cache is proved structurally: each operation's accesses to the guarded map lie in one critical section of the one RWMutex (or it delegates to exactly one such operation), callbacks run in the documented lock context, Range callbacks only compare-and-act, and the expiry predicate/uses are the identity on live entries. With the meta-theorem 'single-critical-section operations on one lock linearize in acquisition order' this is the linearizability claim for those operations on every interleaving, which no finite set of schedules can show. A callback forwarded to another operation is checked against that operation's lock context.",
+         "Per-operation atomicity of every non-iterating operation of pkg/sync.Map and pkg/cache.Cache is proved structurally: each operation's accesses to the guarded map lie in one critical section of the one RWMutex (or it delegates to exactly one such operation), callbacks run in the documented lock context, Range callbacks only compare-and-act, and the expiry predicate/uses are the identity on live entries. With the meta-theorem 'single-critical-section operations on one lock linearize in acquisition order' this is the linearizability claim for those operations on every interleaving, which no finite set of schedules can show. A callback forwarded to another operation is checked against that operation's lock context. The expiry decision uses one atomic snapshot; a delegating operation's callback is never called outside the write lock.",
          TRUST + "Meta-theorem and sync.RWMutex semantics are assumed, not checked. Range's whole-iteration atomicity is excluded by design (documented weakly consistent).",
          "DESIGN.md §4 C14"),
  "C01": ("other", "abstract interpretation of encoder→decoder composition per extension class (linear forms through abstract byte buffers, bit provenance for header layouts) + CFG dominance / sibling-arm agreement / value-flow rules",
-         "Structural necessary conditions of the round trip are decided for every value of each class rather than for sampled messages: the option delta/length extension classes and the stream length classes are shown to compose to the identity through the bytes actually written (extendOpt→marshalOptionHeaderExt→parseExtOpt, getHeader→DecodeHeader), header byte layouts are shown by bit provenance, size computation and writing are shown to share one code path, destination slices are never extended, and validation dominates the first write. Full message equality after a round trip needs execution and is explicitly not claimed. Also decided: the per-code signal option registries are selected by the frame's own code, and the room test before each extension write equals the number of bytes written.",
+         "Structural necessary conditions of the round trip are decided for every value of each class rather than for sampled messages: the option delta/length extension classes and the stream length classes are shown to compose to the identity through the bytes actually written (extendOpt→marshalOptionHeaderExt→parseExtOpt, getHeader→DecodeHeader), header byte layouts are shown by bit provenance, size computation and writing are shown to share one code path, destination slices are never extended, and validation dominates the first write. Full message equality after a round trip needs execution and is explicitly not claimed. Also decided: the per-code signal option registries are selected by the frame's own code, and the room test before each extension write equals the number of bytes written. Decoders store every header field on every successful return and consecutive sub-parsers never share a cursor value.",
          TRUST + "Abstract transfer functions trusted. Known finding D18 (types 4..255 accepted) is listed in known_findings.json.",
          "DESIGN.md §4 C01"),
  "C02": ("other", "in-range obligations for every index/slice on wire bytes discharged from dominating guards + slice arithmetic + verified callee summaries (cursor/counter lock-step analysis), abstract interpretation of the stream header parser on symbolic buffers, literal-table evaluation",
-         "Panic-freedom and progress of the decoders are decided on every path: each index, slice and fixed-width read on attacker-controlled bytes is shown in range (one obligation each), consumed-byte counters are shown to stay in lock-step with the cursor (so callers can slice by them), loops are shown to progress, the stream header parser is abstractly interpreted for every buffer length 0..16 with fully symbolic content (no wrap, no lossy cast, only documented outcomes), accepted tokens are at most 8 bytes, option numbers accumulate over dropped options, the pooled entry point copies its input, and the option registries equal the RFC tables. Agreement with a reference parser on every string and canonicalisation need execution and are not claimed. The decoders accept exactly what the encoders' classes produce (nibble 15 refused); helpers extracted from a decoder are analysed as part of it.",
+         "Panic-freedom and progress of the decoders are decided on every path: each index, slice and fixed-width read on attacker-controlled bytes is shown in range (one obligation each), consumed-byte counters are shown to stay in lock-step with the cursor (so callers can slice by them), loops are shown to progress, the stream header parser is abstractly interpreted for every buffer length 0..16 with fully symbolic content (no wrap, no lossy cast, only documented outcomes), accepted tokens are at most 8 bytes, option numbers accumulate over dropped options, the pooled entry point copies its input, and the option registries equal the RFC tables. Agreement with a reference parser on every string and canonicalisation need execution and are not claimed. The decoders accept exactly what the encoders' classes produce (nibble 15 refused); helpers extracted from a decoder are analysed as part of it. A skipped option keeps ID 0; sub-parsers never share a cursor value; decoders assign every header field.",
          TRUST + "bytes.Buffer.Len()==len(Bytes()) between two calls without intervening buffer mutation is assumed in the stream re-framing loop.",
          "DESIGN.md §4 C02"),
  "C03": ("other", "CFG path queries with defer modelling (registered ⇒ checked ⇒ removed on all exits), structural key-agreement and hand-over rules, lockset rule for the registration primitive",
-         "Structural necessary conditions of token matching are decided on every path of every registration site: store-if-absent is one critical section, the duplicate edge returns an error without overwriting and without removing the owner's entry, the stored edge removes the same key on all exits (or hands a cleanup to callers that all run it), every table access is keyed by Token().Hash() which checksums the whole token, dispatch is one-shot and the hand-over is a non-blocking send of a hijacked message on the request's own buffered channel. Matching under adversarial response orders is not executed and not claimed. The reply-cache arms of processResponse are decided as well (a cached bare ACK carries no token).",
+         "Structural necessary conditions of token matching are decided on every path of every registration site: store-if-absent is one critical section, the duplicate edge returns an error without overwriting and without removing the owner's entry, the stored edge removes the same key on all exits (or hands a cleanup to callers that all run it), every table access is keyed by Token().Hash() which checksums the whole token, dispatch is one-shot and the hand-over is a non-blocking send of a hijacked message on the request's own buffered channel. Matching under adversarial response orders is not executed and not claimed. The reply-cache arms of processResponse are decided as well (a cached bare ACK carries no token). The hijack flag is monotone and the stream framing loop consumes every decoded frame exactly once.",
          TRUST + "CRC-64 collisions between different tokens are outside the claim.",
          "DESIGN.md §4 C03"),
  "C04": ("other", "control-dependence / dominance rules on the reassembly and sending code, forced-edge path queries, value-flow of the M flag and block numbers, abstract interpretation of the size clamp on ordering cells",
-         "Structural necessary conditions of exact-once block-wise delivery are decided on every path: a block is copied only at the end of the bytes already held (NUM·size, size read after any truncation), the reassembled message is handed on at exactly one site after a successful last copy and after its entry was deleted, errors delete the entry and are answered with 4.08, the per-token guard is always released, negotiation returns the smaller size, the M flag and the next block number are computed from the real body size / bytes held, a transfer start never skips a buffer, and both caches are keyed by token hashes. Byte-exact delivery over sizes, SZX pairs and fault sequences needs execution and is not claimed. Also decided: every function that builds a message continuing a transfer copies the complete option list of its template, the block-size setting reaches all per-connection configs, and an expired transfer's entry is never matched by a new exchange.",
+         "Structural necessary conditions of exact-once block-wise delivery are decided on every path: a block is copied only at the end of the bytes already held (NUM·size, size read after any truncation), the reassembled message is handed on at exactly one site after a successful last copy and after its entry was deleted, errors delete the entry and are answered with 4.08, the per-token guard is always released, negotiation returns the smaller size, the M flag and the next block number are computed from the real body size / bytes held, a transfer start never skips a buffer, and both caches are keyed by token hashes. Byte-exact delivery over sizes, SZX pairs and fault sequences needs execution and is not claimed. Also decided: every function that builds a message continuing a transfer copies the complete option list of its template, the block-size setting reaches all per-connection configs, and an expired transfer's entry is never matched by a new exchange. A block's bytes are owned by its message (no pooled buffer) and the reassembly message's options are set once.",
          TRUST, "DESIGN.md §4 C04"),
  "C05": ("other", "dominance / control-dependence and forced-edge path queries on handleReq and processResponse, value-flow of cache keys, constant evaluation",
-         "Structural necessary conditions of MID de-duplication are decided on every path: the per-ID lock is keyed by the request's MID, taken before the cache lookup that guards dispatch and released on every exit; a hit cannot reach dispatch and is answered with the duplicate's MID; every reply-producing arm stores the reply, for CON and NON, under the request's MID (both key functions derive from the MID parameter only); lifetime is 247 s from now; the cached bytes are a private copy. Concurrent duplicate schedules are not executed. An expired cache entry is replaced by LoadOrStore (expiry asked of the stored element) and nothing edits the reply between caching and sending.",
+         "Structural necessary conditions of MID de-duplication are decided on every path: the per-ID lock is keyed by the request's MID, taken before the cache lookup that guards dispatch and released on every exit; a hit cannot reach dispatch and is answered with the duplicate's MID; every reply-producing arm stores the reply, for CON and NON, under the request's MID (both key functions derive from the MID parameter only); lifetime is 247 s from now; the cached bytes are a private copy. Concurrent duplicate schedules are not executed. An expired cache entry is replaced by LoadOrStore (expiry asked of the stored element) and nothing edits the reply between caching and sending. The replay decodes into the response completely (every header field overwritten).",
          TRUST, "DESIGN.md §4 C05"),
  "C06": ("other", "control-dependence of the retransmitting write, structural predicate rules, value-flow of the retransmitted message, sibling rule over all removals from the pending table",
-         "Structural necessary conditions of bounded retransmission are decided: a copy is sent only while not expired and due; expiry is count ≥ MAX_RETRANSMIT or deadline, due time is start + ACK_TIMEOUT·(count+1) with the counter incremented exactly then; the timer origin is taken after the NSTART wait; copies come from a clone of the private clone and Clone rewinds the body; every one of the 5 removals from the pending table releases the copy, the ACK arm before waking the writer; NSTART weights balance; the wait has all three exits. Timing and bytes on the wire need a clock and a network and are not claimed. The three transmission parameters are followed from the server/client configuration through every copy to the comparison that uses them, and the writer runs the pending-entry cleanup on every exit.",
+         "Structural necessary conditions of bounded retransmission are decided: a copy is sent only while not expired and due; expiry is count ≥ MAX_RETRANSMIT or deadline, due time is start + ACK_TIMEOUT·(count+1) with the counter incremented exactly then; the timer origin is taken after the NSTART wait; copies come from a clone of the private clone and Clone rewinds the body; every one of the 5 removals from the pending table releases the copy, the ACK arm before waking the writer; NSTART weights balance; the wait has all three exits. Timing and bytes on the wire need a clock and a network and are not claimed. The three transmission parameters are followed from the server/client configuration through every copy to the comparison that uses them, and the writer runs the pending-entry cleanup on every exit. A failed copy does not remove the pending entry.",
          TRUST, "DESIGN.md §4 C06"),
  "C07": ("other", "dominance/control-dependence rules on the re-framing loop + abstract interpretation of the header parser on every proper prefix of every header shape",
-         "The structural reasons framing depends only on the concatenated bytes are decided: size limit before waiting and before decoding, no consumption before the frame is complete, decoder gets exactly the announced frame and the buffer advances by the decoder's count, every proper header prefix yields ErrShortRead (abstractly interpreted with symbolic content, 8 header shapes × all prefix lengths) which the loop maps to 'wait', the announced length cannot wrap, reads append exactly what was read, hand-over is synchronous and in order. The quantification over all segmentations is argued from these, not executed. The sender's length header is shown to be what the receiver's framing reads back for every length class, and the configured size limit is followed by name from the server configuration to the framing loop.",
+         "The structural reasons framing depends only on the concatenated bytes are decided: size limit before waiting and before decoding, no consumption before the frame is complete, decoder gets exactly the announced frame and the buffer advances by the decoder's count, every proper header prefix yields ErrShortRead (abstractly interpreted with symbolic content, 8 header shapes × all prefix lengths) which the loop maps to 'wait', the announced length cannot wrap, reads append exactly what was read, hand-over is synchronous and in order. The quantification over all segmentations is argued from these, not executed. The sender's length header is shown to be what the receiver's framing reads back for every length class, and the configured size limit is followed by name from the server configuration to the framing loop. A frame is written under one critical section (the writers' lock is taken outside the partial-write loop).",
          TRUST,
          "DESIGN.md §4 C07"),
  "C08": ("other", "abstract interpretation of the freshness predicate on relational cells (linear forms s, s±d; interval classes) + lockset / control-dependence rules on the observation state",
-         "The freshness predicate is shown equal to RFC 7641 §3.4 for every old value at and around every boundary distance and for every distance class from old value 0, crossed with the elapsed-time classes (30 cells, all paths); observation state is shown to be touched only under its mutex and written only for accepted notifications; the application callback is shown to be gated by the acceptance test for every message including the first; registration cleanup (error-cell discipline, duplicate keeps the owner) and the 2.05/2.03 success rule, and Cancel's remove-before-deregister order are decided on every path. Arrival histories are not executed. Cancel never re-registers on a failed deregistration; routing uses Token.Hash, which checksums the whole token.",
+         "The freshness predicate is shown equal to RFC 7641 §3.4 for every old value at and around every boundary distance and for every distance class from old value 0, crossed with the elapsed-time classes (30 cells, all paths); observation state is shown to be touched only under its mutex and written only for accepted notifications; the application callback is shown to be gated by the acceptance test for every message including the first; registration cleanup (error-cell discipline, duplicate keeps the owner) and the 2.05/2.03 success rule, and Cancel's remove-before-deregister order are decided on every path. Arrival histories are not executed. Cancel never re-registers on a failed deregistration; routing uses Token.Hash, which checksums the whole token. A notification keeps its Observe option up to the freshness check (reassembly options set once; registry admits 0-3 bytes).",
          TRUST, "DESIGN.md §4 C08"),
  "C09": ("other", "inventory of every blocking operation (select / channel op / semaphore / WaitGroup / sleep) classified by the origin of each case's channel, close-once and defer-first path rules, lockset-at-call rule",
-         "Liveness on cancel/close is decided as an exhaustive inventory: every select, semaphore wait, WaitGroup wait and sleep of the module is classified (the counts are in the evidence); every client-operation wait is shown to have a case on the request context and on the connection/server context (or is listed with the holder that bounds it), an unlisted blocking operation fails. Close is decided structurally: compare-and-swap guards, on-close list popped in one critical section, Run arms Close+shutdown before any return, done completed only by shutdown (called only from Run), Close cancels unconditionally, no Close/callback under a server mutex, requests built on the caller's context. Delay bounds in time are not claimed. Close of the stream wrapper takes no I/O lock.",
+         "Liveness on cancel/close is decided as an exhaustive inventory: every select, semaphore wait, WaitGroup wait and sleep of the module is classified (the counts are in the evidence); every client-operation wait is shown to have a case on the request context and on the connection/server context (or is listed with the holder that bounds it), an unlisted blocking operation fails. Close is decided structurally: compare-and-swap guards, on-close list popped in one critical section, Run arms Close+shutdown before any return, done completed only by shutdown (called only from Run), Close cancels unconditionally, no Close/callback under a server mutex, requests built on the caller's context. Delay bounds in time are not claimed. Close of the stream wrapper takes no I/O lock. An NSTART slot is never kept by a failed request.",
          TRUST, "DESIGN.md §4 C09"),
  "C10": ("other", "loop-exit cause analysis of the serve loops, accept-loop purity rule, value-flow of the handshake context and peer key, lockset rule, inventory of explicit panic sites with call-graph reachability, in-range obligations on the decoders",
-         "Decided on every path: the datagram serve loop returns only for listener errors and per-peer errors only close that peer; the stream/DTLS accept loops return only on checkAcceptError and do nothing with an accepted connection except start its goroutine; the DTLS handshake is bounded by the configured timeout; the peer key uses both addresses and get-or-create is one critical section; a rejected duplicate discovery touches nothing of the running one; every explicit panic site is in a triaged table (new ones fail) with CHA/VTA reachability from the receive entry points in the evidence; every index/slice on wire bytes in the decoders is in range. Behavioural isolation between peers and pion/dtls internals are not claimed. Every store into the connection table uses the key computed for that connection; keep-alive state is per connection.",
+         "Decided on every path: the datagram serve loop returns only for listener errors and per-peer errors only close that peer; the stream/DTLS accept loops return only on checkAcceptError and do nothing with an accepted connection except start its goroutine; the DTLS handshake is bounded by the configured timeout; the peer key uses both addresses and get-or-create is one critical section; a rejected duplicate discovery touches nothing of the running one; every explicit panic site is in a triaged table (new ones fail) with CHA/VTA reachability from the receive entry points in the evidence; every index/slice on wire bytes in the decoders is in range. Behavioural isolation between peers and pion/dtls internals are not claimed. Every store into the connection table uses the key computed for that connection; keep-alive state is per connection. A listener reports 'closed' only on its closed flag; a rejected duplicate discovery arms no removal by defer.",
          TRUST, "DESIGN.md §4 C10"),
  "C11": ("other", "dominance of the loop-replacement call over each reader-fed wait, who-may-call sets over the type-resolved program, lockset and flag-discipline rules, one-fate path queries",
-         "Decided structurally: every wait that only the reader loop can satisfy is dominated by TryToReplaceLoop (also on the Observe path), the per-message dispatch has a single caller and the queue a single consumer, reader state is touched only under its mutex, the loop's flag discipline and the freshness of a replacement loop's channel and flag hold, and each decoded message meets exactly one of release / inline handling / enqueue on every path. Arrival order under nested blocking handlers depends on Go's unprioritised select and is stated as out of reach, not as holding. Application callbacks are invoked with no library mutex held on any path (may-hold lock sets), and the own message-ID counter is kept away from the ID of a confirmable request in progress (operand order and step of checkMyMessageID).",
+         "Decided structurally: every wait that only the reader loop can satisfy is dominated by TryToReplaceLoop (also on the Observe path), the per-message dispatch has a single caller and the queue a single consumer, reader state is touched only under its mutex, the loop's flag discipline and the freshness of a replacement loop's channel and flag hold, and each decoded message meets exactly one of release / inline handling / enqueue on every path. Arrival order under nested blocking handlers depends on Go's unprioritised select and is stated as out of reach, not as holding. Application callbacks are invoked with no library mutex held on any path (may-hold lock sets), and the own message-ID counter is kept away from the ID of a confirmable request in progress (operand order and step of checkMyMessageID). Dispatch is one-shot and the stream buffer is consumed exactly (no message handled twice).",
          TRUST, "DESIGN.md §4 C11"),
  "C12": ("other", "ownership typestate of *pool.Message per function over go/ssa with defer modelling and fixpoint-discovered releasers; guard-dominance rules for the hijack protocol",
          "For every release site of the module: after a release no path uses, sends, stores or releases the same message again and no deferred release of it is pending; received messages are released only on the not-hijacked edge after the handler returned and the hijack flag is monotone; continuations hijack before handing a message to another goroutine; SetMessage/Swap and all Swap callers account for every message; the pending copy is accessed under its lock and forgotten on release; Pool.ReleaseMessage resets before Put and touches nothing after. Cross-goroutine aliasing through application code is not decided (no pointer analysis available). Across containers: a message handed to a pending entry is released only through it, cache-element data is borrowed, and no closure that outlives a function captures a message that function releases.",
          TRUST, "DESIGN.md §4 C12"),
  "C13": ("other", "registration-pairing path queries over an inventory of every storing call into Map/Cache-typed fields, deadline non-zero value-flow, error-cell cleanup discipline, acquire/release pairing",
-         "Leak-freedom is decided as a pairing discipline on every path: each of the registration sites (all that exist – an unclassified new site fails) is removed on every exit, or its cleanup is handed to callers that all run it, or it is stored with a provably set deadline that the sweep (shown to reach every cache and the pending table) removes; deferred error-cell cleanups see the error actually returned; semaphores, endpoint slots and per-ID locks are released on every exit; the per-ID lock map and endpoint queue delete their entries at zero. Table sizes after histories are not measured. The endpoint queue entry is deleted on every path from counter == 0; removal closures handed to callers are not keyed by recycled messages.",
+         "Leak-freedom is decided as a pairing discipline on every path: each of the registration sites (all that exist – an unclassified new site fails) is removed on every exit, or its cleanup is handed to callers that all run it, or it is stored with a provably set deadline that the sweep (shown to reach every cache and the pending table) removes; deferred error-cell cleanups see the error actually returned; semaphores, endpoint slots and per-ID locks are released on every exit; the per-ID lock map and endpoint queue delete their entries at zero. Table sizes after histories are not measured. The endpoint queue entry is deleted on every path from counter == 0; removal closures handed to callers are not keyed by recycled messages. The NSTART slot is released on every error return; the helper GET's sending entry is dropped on the tokens-differ edge.",
          TRUST,
          "DESIGN.md §4 C13"),
  "C15": ("other", "sibling-agreement rules (all consumers of Find, both attempts of every grow-and-retry idiom), failure-atomicity path queries, value-flow rules on the pooled builder's value buffer",
-         "Decided structurally: the upper bound returned by Find is exclusive in all consumers, the retry of every grow-and-retry site repeats the first call with the same non-buffer arguments, no editor mutates the list before reporting ErrTooSmall (one listed exception), option values are slices of the message's own only-advancing value buffer and nothing appends to an existing value, the 255-byte limit and empty-segment handling agree between siblings. Equality with a reference multiset model over operation sequences needs relational loop invariants / execution and is not claimed. Unsigned option values: EncodeUint32/DecodeUint32 are abstractly interpreted per length class (minimal-length big-endian, mutually inverse, every write in range with a destination of exactly the guarded length); the option list grows only through the Find-positioned insertions and the ascending parser.",
+         "Decided structurally: the upper bound returned by Find is exclusive in all consumers, the retry of every grow-and-retry site repeats the first call with the same non-buffer arguments, no editor mutates the list before reporting ErrTooSmall (one listed exception), option values are slices of the message's own only-advancing value buffer and nothing appends to an existing value, the 255-byte limit and empty-segment handling agree between siblings. Equality with a reference multiset model over operation sequences needs relational loop invariants / execution and is not claimed. Unsigned option values: EncodeUint32/DecodeUint32 are abstractly interpreted per length class (minimal-length big-endian, mutually inverse, every write in range with a destination of exactly the guarded length); the option list grows only through the Find-positioned insertions and the ascending parser. A successful setPath replaces the old path; value copies are complete (length, not capacity).",
          TRUST, "DESIGN.md §4 C15"),
  "C16": ("other", "lock-context rule for queue state, forced-edge pairing queries (release only after success), guard-dominance of counter updates, structural FIFO / order-preserving-removal / cancel-identity rules",
-         "Decided on every path: queue state is touched only inside map-locked callbacks; endpoint slots and the total-limit semaphore are released by defer exactly on the successful-acquisition edge and never on the failed one; the counter grows only under counter < limit and shrinks only when no waiter takes over; waiters are appended, admitted from the front and removed order-preservingly; the cancel path identifies the waiter by its own channel and gives a slot back only if it had been admitted; a waiter channel is closed exactly where a slot is granted. Event orders are not explored. The two configured limits reach the limiter uncrossed (field to parameter to field, by name) and the endpoint key covers exactly the Uri-Path options.",
+         "Decided on every path: queue state is touched only inside map-locked callbacks; endpoint slots and the total-limit semaphore are released by defer exactly on the successful-acquisition edge and never on the failed one; the counter grows only under counter < limit and shrinks only when no waiter takes over; waiters are appended, admitted from the front and removed order-preservingly; the cancel path identifies the waiter by its own channel and gives a slot back only if it had been admitted; a waiter channel is closed exactly where a slot is granted. Event orders are not explored. The two configured limits reach the limiter uncrossed (field to parameter to field, by name) and the endpoint key covers exactly the Uri-Path options. The observation handler's requests pass the limiter too.",
          TRUST, "DESIGN.md §4 C16"),
  "C17": ("other", "must-hold lockset rule over all Router methods, value-flow of literal path pieces through QuoteMeta into the anchored buffer, forced-edge path queries on the selection, loop-exit analysis",
-         "Decided: the route table and default handler are accessed only under the router lock (data-race freedom on every path), the compiled pattern is ^…$ with every literal piece quoted, a route becomes the candidate only after matching and only if strictly longer, the scan has no early exit, no match selects the default handler, one handler invocation per path, middlewares wrap in reverse order. Regexp semantics and variable extraction need execution. Every request gets freshly allocated route parameters.",
+         "Decided: the route table and default handler are accessed only under the router lock (data-race freedom on every path), the compiled pattern is ^…$ with every literal piece quoted, a route becomes the candidate only after matching and only if strictly longer, the scan has no early exit, no match selects the default handler, one handler invocation per path, middlewares wrap in reverse order. Regexp semantics and variable extraction need execution. Every request gets freshly allocated route parameters. pathMatch rejects only by the route's regexp.",
          TRUST, "DESIGN.md §4 C17"),
  "C18": ("other", "dominance of Notify over all handling on both receive paths, structural predicate rules, value-flow of the housekeeping time, guard-dominance rules of the keep-alive protocol, who-may-call sets",
-         "Decided: every non-dropped received message refreshes the activity timestamp before it is handled; the monitor fires exactly on now.After(last+period); housekeeping uses the tick's own time (one open finding: +10 ms in the datagram server); keep-alive closes only on incremented fails > maxRetries, cancels the superseded ping, numbers every ping and credits a pong only to the current generation, with per-connection state; who may reset the failure count (open finding: only the pong). Histories against a virtual clock are not executed. The housekeeping tick reaches every registered connection (no early exit from the fan-out).",
+         "Decided: every non-dropped received message refreshes the activity timestamp before it is handled; the monitor fires exactly on now.After(last+period); housekeeping uses the tick's own time (one open finding: +10 ms in the datagram server); keep-alive closes only on incremented fails > maxRetries, cancels the superseded ping, numbers every ping and credits a pong only to the current generation, with per-connection state; who may reset the failure count (open finding: only the pong). Histories against a virtual clock are not executed. The housekeeping tick reaches every registered connection (no early exit from the fan-out). Every path of a connection's housekeeping reaches the inactivity check.",
          TRUST + "Known findings D13, D19 are listed in known_findings.json.", "DESIGN.md §4 C18"),
  "C19": ("proof", "abstract interpretation of the codec on go/ssa (intervals × per-bit provenance × linear forms) over symbolic inputs + constant-table evaluation",
          "The whole statement is decided for the whole domain without enumerating it: DecodeBlockOption/EncodeBlockOption are abstractly interpreted on symbolic 24-/32-bit inputs; acceptance/refusal is shown per input cell on every abstract path and the results' bits are shown to be exactly the RFC 7959 fields (so the two functions are mutual inverses), with no wrap or lossy conversion on the legal domain; the SZX size table is evaluated from the literal, shown single-writer, and BERT sizing is shown to be floor(max/1024)*1024. The 24-bit value's 0-3 byte minimal big-endian wire form (message.EncodeUint32/DecodeUint32) is decided per length class as well.",
          TRUST + "The abstract transfer functions (sound for Go fixed-width integers) are trusted. BERT sizing for max < 1024 is outside the claim.",
          "DESIGN.md §4 C19"),
  "C20": ("proof", "abstract interpretation of IsNoResponseCode over code-class × option-bit cells + dominance/value-flow rules for the wiring",
-         "The predicate is decided for every (code, option value) pair: 72 abstract cells (9 code ranges × 8 settings of bits 2/8/16, the other 29 bits unknown) are each shown to return non-nil exactly when RFC 7967 suppresses the class. The wiring that makes the predicate govern SetResponse (check before mutation, refusal returned, option 258 read from the whole request option list at every construction site, unmodified response = bare ACK or nothing) is decided by dominance and value-flow rules on every path. Who may set a response code on a response writer's message is decided module-wide (SetResponse and the bare-ACK arm only).",
+         "The predicate is decided for every (code, option value) pair: 72 abstract cells (9 code ranges × 8 settings of bits 2/8/16, the other 29 bits unknown) are each shown to return non-nil exactly when RFC 7967 suppresses the class. The wiring that makes the predicate govern SetResponse (check before mutation, refusal returned, option 258 read from the whole request option list at every construction site, unmodified response = bare ACK or nothing) is decided by dominance and value-flow rules on every path. Who may set a response code on a response writer's message is decided module-wide (SetResponse and the bare-ACK arm only). Option numbers accumulate over skipped options, so option 258 is recognised behind an illegal-length option.",
          TRUST + "What is put on the wire by the transports after SetResponse refused is decided only structurally (unmodified-response arms), not by observing frames.",
          "DESIGN.md §4 C20"),
 }
@@ -126,7 +126,7 @@ def main():
         }],
         "checks": checks,
         "not_applicable": na,
-        "notes": "Unexported helpers that are not anchors of a rule are analysed as part of their callers (DESIGN.md §3 absorption), so extracting or inlining helpers does not change a verdict. Every check re-loads and re-type-checks /repo's current working tree on each run (about 2-4 s). Thorough tier adds GOARCH=386, GOOS=windows and a tests-included configuration plus a two-sided self-test on scratch copies of the current tree: one-instance-broken mutants (incl. 80 independently seeded breaking changes) must be reported, 80 independently produced behaviour-preserving refactors must stay silent (under $TMPDIR, removed immediately). known_findings.json lists findings (open) and repaired defects (fixed); it is never written at run time.",
+        "notes": "Unexported helpers that are not anchors of a rule are analysed as part of their callers (DESIGN.md §3 absorption), so extracting or inlining helpers does not change a verdict. Every check re-loads and re-type-checks /repo's current working tree on each run (about 2-4 s). Thorough tier adds GOARCH=386, GOOS=windows and a tests-included configuration plus a two-sided self-test on scratch copies of the current tree: one-instance-broken mutants (incl. the independently seeded breaking changes of three rounds) must be reported, the independently produced behaviour-preserving refactors listed in mutants/*/benign.json must stay silent (under $TMPDIR, removed immediately). known_findings.json lists findings (open) and repaired defects (fixed); it is never written at run time.",
     }
     json.dump(m, open('/verif/MANIFEST.json', 'w'), indent=1)
     print("checks:", [c["property_id"] for c in checks], "n/a:", len(na))
